@@ -33,13 +33,15 @@ abbrev ClsId := Nat
 abbrev InstId := Nat
 abbrev Name := Nat
 
-/-- a Python value: a (small) int — immutable, identical iff equal — or a reference to a list cell -/
+/-- a Python value: `None`, a (small) int — immutable, identical iff equal — or a reference to a list cell -/
 inductive Val
+  | none
   | int (n : Int)
   | ref (c : CellId)
   deriving DecidableEq, Repr
 
 def Val.cells : Val → List CellId
+  | .none => []
   | .int _ => []
   | .ref c => [c]
 
@@ -116,16 +118,19 @@ def alloc (cells : List (List Int)) (l : List Int) : CellId × List (List Int) :
 
 /-- a literal written in the program text: an int, or a list display (a new object every time) -/
 inductive Lit
+  | none
   | int (n : Int)
   | list (l : List Int)
   deriving DecidableEq, Repr
 
 def evalLit (cells : List (List Int)) : Lit → Val × List (List Int)
+  | .none => (.none, cells)
   | .int n => (.int n, cells)
   | .list l => (.ref cells.length, cells ++ [l])
 
 /-- `copy.deepcopy(v)` for an int or a list of ints -/
 def deepcopyVal (cells : List (List Int)) : Val → Val × List (List Int)
+  | .none => (.none, cells)
   | .int n => (.int n, cells)
   | .ref c => (.ref cells.length, cells ++ [deref cells c])
 
@@ -201,6 +206,7 @@ def validate (cells : List (List Int)) (p : PObj) (v : Val) : Except Err (List (
   | .plain => .ok cells
   | .number =>
     match v with
+    | .none => .error .valueError        -- `allow_None` is False for an Integer with an int default
     | .ref _ => .error .valueError
     | .int n =>
       match boundsOf cells p with
@@ -401,6 +407,7 @@ def World.read (w : World) : Target → Name → Option Val
 def doMutVal (w : World) (t : Target) (x : Name) (n : Int) : World × Option Err :=
   match w.read t x with
   | none => (w, some .unsupported)
+  | some .none => (w, some .attributeError)
   | some (.int _) => (w, some .attributeError)
   | some (.ref c) => ({ w with cells := w.cells.set c (deref w.cells c ++ [n]) }, none)
 
